@@ -70,9 +70,13 @@ def _replay_worker(args):
     for (a, i, k) in acts:
         # k > 0: during this step the application's event callback makes call k (a set_child_value for the reporting node and
         # child) - armed for this one step
-        drv.react_once = [calls[k - 1]["t"], calls[k - 1]["value"], calls[k - 1].get("ack", 0)] if k else None
-        if k:
+        drv.react_once = drv.react_once_fw = None
+        if k and calls[k - 1]["a"] == "SetChild":
+            drv.react_once = [calls[k - 1]["t"], calls[k - 1]["value"], calls[k - 1].get("ack", 0)]
             drv.ops.append(["react_once", drv.react_once])
+        elif k:
+            drv.react_once_fw = list(calls[k - 1]["f"])       # update_fw(presenting node, type, version) without an image
+            drv.ops.append(["react_once_fw", drv.react_once_fw])
         if a == "Recv":
             drv.recv(lines[i - 1])
         elif a in ("PumpL", "PumpE"):
@@ -96,7 +100,7 @@ def _replay_worker(args):
             drv.tick()
         elif a == "StopRestart":
             drv.stop_restart()
-        drv.react_once = None
+        drv.react_once = drv.react_once_fw = None
     drv.close()
     if persist_path:
         for suffix in ("", ".bak"):
